@@ -50,10 +50,14 @@ struct GlyphSpec {
     is_mark: bool,
     width: i32,
     seed: u64,
+    /// a second code point (profile "features")
+    extra_cp: Option<u32>,
+    /// further anchors: (name, x, y)
+    anchors: Vec<(String, i32, i32)>,
 }
 
 pub fn profiles() -> &'static [&'static str] {
-    &["names", "kern", "composites", "big", "mixed"]
+    &["names", "kern", "composites", "big", "mixed", "features"]
 }
 
 /// Write a source tree for (seed, profile) under `dir`; returns the designspace file name.
@@ -185,6 +189,8 @@ pub fn materialize(seed: u64, profile: &str, dir: &Path) -> String {
             is_mark: false,
             width: 200 + rng.below(800) as i32,
             seed: rng.next(),
+            extra_cp: None,
+            anchors: vec![],
         };
         match kind {
             0 => {}
@@ -210,7 +216,8 @@ pub fn materialize(seed: u64, profile: &str, dir: &Path) -> String {
         }
         if rng.chance(2, 3) && name != ".notdef" {
             if multi_script && rng.chance(2, 5) {
-                let blocks = if rng.chance(3, 4) { 2 } else { next_in_block.len() };
+                // mostly left-to-right scripts: a kerning group that mixes directions is refused by fontc
+                let blocks = if rng.chance(9, 10) { 2 } else { next_in_block.len() };
                 let b = rng.below(blocks);
                 g.codepoint = Some(next_in_block[b]);
                 next_in_block[b] += 1;
@@ -231,6 +238,53 @@ pub fn materialize(seed: u64, profile: &str, dir: &Path) -> String {
             }
         }
         glyphs.push(g);
+    }
+
+    // ---- profile "features": several mark classes, ligature anchors and carets, mark-to-mark,
+    // two code points per glyph, so that every per-class / per-glyph collection has company
+    let feat = profile == "features";
+    if feat {
+        let classes = ["top", "bottom", "ogonek", "ring"];
+        let mut extra = 0xE000u32;
+        for g in glyphs.iter_mut() {
+            if g.name == ".notdef" || g.name == "space" {
+                continue;
+            }
+            g.anchor_top = false;
+            g.is_mark = g.components.is_empty() && rng.chance(1, 5);
+            if g.is_mark {
+                g.width = 0;
+                let c = *rng.pick(&classes);
+                g.anchors.push((format!("_{c}"), 100 + rng.below(50) as i32, 400 + rng.below(100) as i32));
+                if rng.chance(1, 2) {
+                    // stacks on marks of its own class
+                    g.anchors.push((c.to_string(), 100 + rng.below(50) as i32, 600 + rng.below(100) as i32));
+                }
+            } else if rng.chance(1, 6) {
+                // a ligature: numbered anchors and carets
+                let n = 2 + rng.below(2);
+                let c = *rng.pick(&classes);
+                for k in 1..=n {
+                    g.anchors.push((format!("{c}_{k}"), (k as i32) * 200, 700));
+                    if rng.chance(1, 2) {
+                        g.anchors.push((format!("bottom_{k}"), (k as i32) * 200, -50));
+                    }
+                }
+                for k in 1..n {
+                    g.anchors.push((format!("caret_{k}"), (k as i32) * 200 + 100, 0));
+                }
+            } else {
+                for c in classes {
+                    if rng.chance(1, 2) {
+                        g.anchors.push((c.to_string(), 200 + rng.below(200) as i32, if c == "top" || c == "ring" { 700 } else { -20 }));
+                    }
+                }
+            }
+            if g.codepoint.is_some() && rng.chance(1, 4) {
+                g.extra_cp = Some(extra);
+                extra += 1;
+            }
+        }
     }
 
     // ---- kerning plan (names of groups and pairs shared; values and memberships vary per master)
@@ -258,6 +312,101 @@ pub fn materialize(seed: u64, profile: &str, dir: &Path) -> String {
             }
             let v = rng.below(200) as i32 - 100;
             pairs.push((a, b, v));
+        }
+    }
+
+    // ---- profile "features": feature code, categories, production names, colour
+    let mut feat_lib = String::new();
+    let mut feat_fea = String::new();
+    if feat {
+        let usable: Vec<&GlyphSpec> = glyphs.iter().filter(|g| g.export && g.name != ".notdef" && g.name != "space" && !g.is_mark).collect();
+        // production names, some of them colliding
+        feat_lib.push_str("<key>public.postscriptNames</key><dict>");
+        for g in glyphs.iter().filter(|g| g.export && g.name != ".notdef") {
+            if rng.chance(1, 3) {
+                let pn = if rng.chance(1, 4) { "dup".to_string() } else { format!("uni{:04X}", 0xF000 + rng.below(64)) };
+                let _ = write!(feat_lib, "<key>{}</key><string>{pn}</string>", xml(&g.name));
+            }
+        }
+        feat_lib.push_str("</dict><key>public.openTypeCategories</key><dict>");
+        for g in glyphs.iter().filter(|g| g.name != ".notdef") {
+            let cat = if g.is_mark {
+                "mark"
+            } else if g.anchors.iter().any(|a| a.0.ends_with("_1")) {
+                "ligature"
+            } else if rng.chance(1, 2) {
+                "base"
+            } else {
+                continue;
+            };
+            let _ = write!(feat_lib, "<key>{}</key><string>{cat}</string>", xml(&g.name));
+        }
+        feat_lib.push_str("</dict>");
+        if usable.len() >= 4 && rng.chance(1, 2) {
+            // two palettes, a few colour glyphs made of layers
+            feat_lib.push_str("<key>com.github.googlei18n.ufo2ft.colorPalettes</key><array>");
+            for p in 0..2 {
+                feat_lib.push_str("<array>");
+                for c in 0..3 {
+                    let _ = write!(feat_lib, "<array><real>{}</real><real>{}</real><real>{}</real><real>1</real></array>", (p as f64) * 0.5, (c as f64) * 0.3, 0.25);
+                }
+                feat_lib.push_str("</array>");
+            }
+            feat_lib.push_str("</array><key>com.github.googlei18n.ufo2ft.colorLayers</key><dict>");
+            let n_col = 1 + rng.below(3);
+            let mut done: Vec<&str> = Vec::new();
+            for _ in 0..n_col {
+                let base = *rng.pick(&usable);
+                if done.contains(&base.name.as_str()) {
+                    continue;
+                }
+                done.push(base.name.as_str());
+                let _ = write!(feat_lib, "<key>{}</key><array>", xml(&base.name));
+                for l in 0..(1 + rng.below(3)) {
+                    let layer = *rng.pick(&usable);
+                    let _ = write!(feat_lib, "<array><string>{}</string><integer>{}</integer></array>", xml(&layer.name), l % 3);
+                }
+                feat_lib.push_str("</array>");
+            }
+            feat_lib.push_str("</dict>");
+        }
+        // feature code over the usable glyphs
+        if usable.len() >= 6 {
+            let pick = |rng: &mut Prng| usable[rng.below(usable.len())].name.clone();
+            feat_fea.push_str("languagesystem DFLT dflt;\nlanguagesystem latn dflt;\nlanguagesystem latn TRK;\nlanguagesystem grek dflt;\nlanguagesystem cyrl dflt;\n");
+            for c in 0..(2 + rng.below(3)) {
+                let mut members: Vec<String> = (0..(2 + rng.below(4))).map(|_| pick(&mut rng)).collect();
+                members.sort();
+                members.dedup();
+                let _ = writeln!(feat_fea, "@cls{c} = [{}];", members.join(" "));
+            }
+            let tags = ["liga", "ss01", "ss02", "salt", "calt", "locl", "ccmp", "smcp"];
+            let n_feat = 2 + rng.below(4);
+            for f in 0..n_feat {
+                let tag = tags[(f + rng.below(3)) % tags.len()];
+                let _ = writeln!(feat_fea, "feature {tag} {{");
+                if tag == "locl" {
+                    feat_fea.push_str("  script latn; language TRK;\n");
+                }
+                for _ in 0..(1 + rng.below(4)) {
+                    let (a, b, c) = (pick(&mut rng), pick(&mut rng), pick(&mut rng));
+                    match rng.below(4) {
+                        0 if a != b => {
+                            let _ = writeln!(feat_fea, "  sub {a} by {b};");
+                        }
+                        1 => {
+                            let _ = writeln!(feat_fea, "  sub {a} {b} by {c};");
+                        }
+                        2 if a != b => {
+                            let _ = writeln!(feat_fea, "  sub {a}' {c} by {b};");
+                        }
+                        _ => {
+                            let _ = writeln!(feat_fea, "  sub {a} from [{b} {c}];");
+                        }
+                    }
+                }
+                let _ = writeln!(feat_fea, "}} {tag};");
+            }
         }
     }
 
@@ -297,8 +446,15 @@ pub fn materialize(seed: u64, profile: &str, dir: &Path) -> String {
         for g in glyphs.iter().filter(|g| !g.export) {
             let _ = write!(lib, "<string>{}</string>", xml(&g.name));
         }
-        lib.push_str("</array></dict>");
+        lib.push_str("</array>");
+        if feat {
+            lib.push_str(&feat_lib);
+        }
+        lib.push_str("</dict>");
         fs::write(ufo.join("lib.plist"), plist(&lib)).unwrap();
+        if feat && !feat_fea.is_empty() {
+            fs::write(ufo.join("features.fea"), &feat_fea).unwrap();
+        }
 
         let mut contents = String::from("<dict>");
         for g in &glyphs {
@@ -316,6 +472,12 @@ pub fn materialize(seed: u64, profile: &str, dir: &Path) -> String {
             );
             if let Some(cp) = g.codepoint {
                 let _ = writeln!(s, "  <unicode hex=\"{cp:04X}\"/>");
+            }
+            if let Some(cp) = g.extra_cp {
+                let _ = writeln!(s, "  <unicode hex=\"{cp:04X}\"/>");
+            }
+            for (name, x, y) in &g.anchors {
+                let _ = writeln!(s, "  <anchor x=\"{}\" y=\"{}\" name=\"{name}\"/>", x + (w * 12.0) as i32, y + (w * 8.0) as i32);
             }
             if g.anchor_top {
                 let _ = writeln!(
@@ -415,7 +577,33 @@ pub fn materialize(seed: u64, profile: &str, dir: &Path) -> String {
     ds.push_str("  </axes>\n");
     // a substitution rule between two exported glyphs, sometimes
     let exported: Vec<&GlyphSpec> = glyphs.iter().filter(|g| g.export && g.name != ".notdef").collect();
-    if exported.len() >= 2 && rng.chance(1, 3) {
+    if feat && exported.len() >= 4 {
+        // several rules over regions that are not nested, some with two condition sets
+        ds.push_str("  <rules>\n");
+        for r in 0..(2 + rng.below(3)) {
+            let _ = writeln!(ds, "    <rule name=\"r{r}\">");
+            for _ in 0..(1 + rng.below(2)) {
+                ds.push_str("      <conditionset>\n");
+                for a in axes.iter() {
+                    if rng.chance(2, 3) {
+                        let span = a.max - a.min;
+                        let lo = a.min + span * (rng.below(6) as f64) / 10.0;
+                        let hi = lo + span * (1 + rng.below(4)) as f64 / 10.0;
+                        let _ = writeln!(ds, "        <condition name=\"{}\" minimum=\"{}\" maximum=\"{}\"/>", a.name, lo, hi.min(a.max));
+                    }
+                }
+                ds.push_str("      </conditionset>\n");
+            }
+            for _ in 0..(1 + rng.below(2)) {
+                let (x, y) = (exported[rng.below(exported.len())], exported[rng.below(exported.len())]);
+                if x.name != y.name {
+                    let _ = writeln!(ds, "      <sub name=\"{}\" with=\"{}\"/>", xml(&x.name), xml(&y.name));
+                }
+            }
+            ds.push_str("    </rule>\n");
+        }
+        ds.push_str("  </rules>\n");
+    } else if exported.len() >= 2 && rng.chance(1, 3) {
         let a0 = &axes[0];
         let (x, y) = (exported[rng.below(exported.len())], exported[rng.below(exported.len())]);
         if x.name != y.name {
